@@ -1,8 +1,11 @@
-// racecmd runs ONE scan line of the C17 harness; it is built with `go build -race -tags verif` by the
+// racecmd runs ONE line of the C17 harness; it is built with `go build -race -tags verif` by the
 // harness and its stderr is searched for race reports.
 //
-//	racecmd race     <jitter> <10 scan fields>   runs the line once
-//	racecmd raceslow <jitter> <10 scan fields>   one run whose server delays so that the scan lasts > 1 s
+//	racecmd race     <jitter> <10 scan fields>      runs the line once
+//	racecmd raceslow <jitter> <10 scan fields>      one run whose server delays so that the scan lasts > 1 s
+//	racecmd racecap  <jitter> <10 cap fields>       a `cap` line (kind pattern repeated over a big log)
+//	racecmd raceseq  <jitter> <n> <10 fields>*n     n consecutive scans on one Scanner value
+//	racecmd raceslowseq <jitter> <n> <10 fields>*n  the same with the delaying server
 package main
 
 import (
@@ -15,27 +18,38 @@ import (
 )
 
 func main() {
-	if len(os.Args) != 13 {
+	if len(os.Args) < 4 {
 		fmt.Println("usage")
 		os.Exit(2)
 	}
 	jit, _ := strconv.ParseUint(os.Args[2], 10, 64)
-	c, err := rig.Parse(os.Args[3:])
+	var cs []*rig.Case
+	var err error
+	switch os.Args[1] {
+	case "race", "raceslow":
+		var c *rig.Case
+		c, err = rig.Parse(os.Args[3:])
+		cs = []*rig.Case{c}
+	case "racecap":
+		var c *rig.Case
+		c, err = rig.ParseCap(os.Args[3:])
+		cs = []*rig.Case{c}
+	case "raceseq", "raceslowseq":
+		cs, err = rig.ParseSeq(os.Args[3:])
+	default:
+		err = fmt.Errorf("unknown kind %q", os.Args[1])
+	}
 	if err != nil {
 		fmt.Println("bad line:", err)
 		os.Exit(2)
 	}
-	reps := 1
-	if os.Args[1] == "raceslow" {
-		reps = 1
+	if os.Args[1] == "raceslow" || os.Args[1] == "raceslowseq" {
 		rig.SlowServer = 250 * time.Millisecond
 	}
-	for i := 0; i < reps; i++ {
-		r := rig.Run(c, jit+uint64(i)*1000003+1, 60*time.Second)
-		if v := rig.Oracle(c, r); v != "" {
-			fmt.Println("violation:", v)
-			os.Exit(3)
-		}
+	rs := rig.RunSeq(cs, jit+1, 90*time.Second)
+	if v := rig.OracleSeq(cs, rs); v != "" {
+		fmt.Println("violation:", v)
+		os.Exit(3)
 	}
 	fmt.Println("ok")
 }
